@@ -13,6 +13,7 @@
 #include <map>
 #include <set>
 #include <sys/wait.h>
+#include <signal.h>
 using namespace soplex;
 using namespace vt;
 
@@ -527,7 +528,7 @@ template <class R> static void runVecT(Rng& g, int len, const char* tag)
    for(int step = 0; step < len; step++)
    {
       int n = g.R(1, 7); VectorBase<R> x = rdense<R>(g, n, g.R(20, 100)), y = rdense<R>(g, n, g.R(20, 100)); R alpha = rnum<R>(g, g.coin()); R zero(0);
-      int op = g.R(0, 27);
+      int op = g.R(0, 31);
       pending() = "vector op " + std::to_string(op) + " " + tg;
       switch(op)
       {
@@ -558,7 +559,18 @@ template <class R> static void runVecT(Rng& g, int len, const char* tag)
       case 24: { DSVectorBase<R> s = toDS(x, g); s.sort(); VectorBase<R> r = fromSV<R>(s, n); std::vector<int> idx; for(int k = 0; k < s.size(); k++) idx.push_back(s.index(k)); vopEvent<R>("sort", "SV.sort" + tg, x, y, zero, &r, nullptr, s.size(), jints(idx)); break; }
       case 25: { R v = x.maxAbs(); vopEvent<R>("maxAbs", "V.maxAbs" + tg, x, y, zero, nullptr, &v); break; }
       case 26: { DSVectorBase<R> s = toDS(x, g); R v = s.size() ? s.maxAbs() : R(0); vopEvent<R>("maxAbs", "SV.maxAbs" + tg, x, y, zero, nullptr, &v); break; }
-      default: { R v = x.length2(); vopEvent<R>("length2", "V.length2" + tg, x, y, zero, nullptr, &v); break; }
+      case 27: { R v = x.length2(); vopEvent<R>("length2", "V.length2" + tg, x, y, zero, nullptr, &v); break; }
+      case 28: { // shrink and regrow a set-up SSVector, then add into the regrown part: res = y + alpha * x with y truncated at k
+         int k = g.R(0, n - 1); SSVectorBase<R> s = toSS(y, g, true); s.reDim(k); s.reDim(n); VectorBase<R> yt(n); for(int i = 0; i < n; i++) yt[i] = i < k ? y[i] : R(0);
+         s.multAdd(alpha, toDS(x, g)); VectorBase<R> r = fromSS<R>(s); if(!s.isSetup()) s.setup(); vopEvent<R>("axpy", "SSV.reDim;multAdd(a,SV)" + tg, x, yt, alpha, &r, nullptr, s.size()); break; }
+      case 29: { // SVector = SSVector
+         SSVectorBase<R> ss = toSS(x, g, true); DSVectorBase<R> d(n + 1); static_cast<SVectorBase<R>&>(d) = ss; VectorBase<R> r = fromSV<R>(d, n); vopEvent<R>("assign", "SV=SSV" + tg, x, y, zero, &r, nullptr, d.size()); break; }
+      case 30: { // DSVector::add(SVector) appends: x and y with disjoint supports
+         VectorBase<R> xa(n), ya(n); for(int i = 0; i < n; i++) { xa[i] = (i & 1) ? x[i] : R(0); ya[i] = (i & 1) ? R(0) : y[i]; }
+         DSVectorBase<R> d = toDS(ya, g); d.add(toDS(xa, g)); VectorBase<R> r = fromSV<R>(d, n); vopEvent<R>("add", "DSV.add(SV)" + tg, xa, ya, zero, &r, nullptr, d.size()); break; }
+      default: { // SVector::remove(a, b): removes the nonzeros at positions a..b (any order of the rest)
+         DSVectorBase<R> d = toDS(x, g); if(d.size() == 0) break; int a = g.R(0, d.size() - 1), b = g.R(a, d.size() - 1); VectorBase<R> xr = x; for(int p = a; p <= b; p++) xr[d.index(p)] = R(0);
+         d.remove(a, b); VectorBase<R> r = fromSV<R>(d, n); vopEvent<R>("assign", "SV.remove(n,m)" + tg, xr, y, zero, &r, nullptr, d.size()); break; }
       }
    }
 }
@@ -577,7 +589,7 @@ static void runScripts(const char* path, int shard, int nshards)
       size_t p = line.find("\"kind\":"); if(p == std::string::npos) continue; int kind = atoi(line.c_str() + p + 7);
       size_t q = line.find("\"ops\":["); if(q == std::string::npos) continue; std::vector<int> ops; const char* s = line.c_str() + q + 7;
       while(*s && *s != ']') { ops.push_back(atoi(s)); while(*s && *s != ',' && *s != ']') s++; if(*s == ',') s++; }
-      Rng g((unsigned long)ln * 7919UL + 17);
+      Rng g((unsigned long)ln * 7919UL + 17); alarm(60);
       T().line("{\"a\":\"Reset\"}"); g_nextId = 0; SVKeyed<double>::g_small = SVKeyed<Rational>::g_small = true;
       std::vector<std::unique_ptr<KeyedBase>> objs; objs.emplace_back(newKeyed(kind));
       { J ev; ev.s("a", "new").s("fam", "keyed").s("kind", objs[0]->kind()); objs[0]->emit(ev); }
@@ -585,6 +597,7 @@ static void runScripts(const char* path, int shard, int nshards)
    }
 }
 
+static void onWatchdog(int) { crashLine("execution did not finish within 120 s (hang)"); _exit(0); }
 int main(int argc, char** argv)
 {
    if(argc < 6) { fprintf(stderr, "usage: cont_drv <family> <seed> <nexec> <len> <out>\n"); return 2; }
@@ -594,7 +607,7 @@ int main(int argc, char** argv)
    if(fam == "script")
    {
       const char* path = getenv("VERIF_SCRIPTS"); if(!path) return 2;
-      T().f = fopen(argv[5], "a"); installCrashHandlers(); runScripts(path, (int)seed, nexec); T().close(); return 0;
+      T().f = fopen(argv[5], "a"); setvbuf(T().f, nullptr, _IOLBF, 1 << 16); installCrashHandlers(); signal(SIGALRM, onWatchdog); runScripts(path, (int)seed, nexec); T().close(); return 0;
    }
    for(int e = 0; e < nexec; e++)
    {
@@ -603,7 +616,7 @@ int main(int argc, char** argv)
       if(pid == 0)
       {
          T().f = fopen(argv[5], "a"); if(!T().f) _exit(2);
-         if(nofork) setvbuf(T().f, nullptr, _IOLBF, 0); else installCrashHandlers();
+         setvbuf(T().f, nullptr, _IOLBF, 1 << 16); if(!nofork) { installCrashHandlers(); signal(SIGALRM, onWatchdog); alarm(120); }
          Rng g(seed * 1000003UL + (unsigned long)e);
          if(fam == "keyed") runKeyed(g, len); else if(fam == "seq") runSeq(g, len); else if(fam == "bag") runBag(g, len); else if(fam == "list") runList(g, len);
          else if(fam == "map") runMap(g, len); else if(fam == "vec") runVec(g, len); else { fprintf(stderr, "unknown family\n"); _exit(2); }
